@@ -602,7 +602,7 @@ def task_backward_slots(ctx):
             unpack = [e.id if isinstance(e, ast.Name) else None for e in n.targets[0].elts]
         if isinstance(n, ast.Assign) and isinstance(n.targets[0], ast.Tuple) and isinstance(n.value, ast.GeneratorExp) and isinstance(n.value.generators[0].iter, ast.Tuple):
             rebinds.append(([e.id for e in n.targets[0].elts if isinstance(e, ast.Name)], [e.id for e in n.value.generators[0].iter.elts if isinstance(e, ast.Name)]))
-        if isinstance(n, ast.For) and isinstance(n.iter, ast.Call) and getattr(n.iter.func, "id", None) == "enumerate" and isinstance(n.iter.args[0], ast.List) and enum_list is None:
+        if isinstance(n, ast.For) and isinstance(n.iter, ast.Call) and getattr(n.iter.func, "id", None) == "enumerate" and isinstance(n.iter.args[0], (ast.List, ast.Tuple)) and enum_list is None:
             enum_list = [e.id if isinstance(e, ast.Name) else None for e in n.iter.args[0].elts]
             # the slot number used for element i: grads[i + c] / gvind.append(i + c)
             offs = {c.right.value for c in ast.walk(n) if isinstance(c, ast.BinOp) and isinstance(c.op, ast.Add) and isinstance(c.left, ast.Name) and c.left.id == n.target.elts[0].id and isinstance(c.right, ast.Constant)}
